@@ -478,12 +478,12 @@ class C10(PropertyCheck):
                          "parameter value (zero, negative zero, negative, tiny, huge, ints, numpy floats) and container "
                          "type (list, tuple, ndarray); every non-exportable gate alone and inside a circuit; measurements")
         # random circuits
-        n_rand = 3000 if ctx.thorough else 400
+        n_rand = 15000 if ctx.thorough else 400
         specs = [random_circuit(rng, allow_nonexp=0.04) for _ in range(n_rand)]
         texts += self._run_cases(ctx, res, specs, ["stream=random"])
         # malformed stream
         specs = []
-        for _ in range(1500 if ctx.thorough else 250):
+        for _ in range(6000 if ctx.thorough else 250):
             s = random_circuit(rng, maxlen=4)
             gi = [i for i, op in enumerate(s["ops"]) if "g" in op]
             if not gi:
@@ -563,7 +563,7 @@ class C10(PropertyCheck):
         n = 0
         for spec in self._search_stream(ctx):
             n += 1
-            if n > (600 if ctx.thorough else 170):
+            if n > (3000 if ctx.thorough else 170):
                 return
             if not self._sweep_ok(spec):
                 continue
